@@ -2,6 +2,7 @@
 C11 — helper lemmas for the Scale / Impute model (`Model/C11.lean`).
 -/
 import CobaVerif.Model.C11
+import CobaVerif.Generated.C11Options
 import Mathlib.Tactic.Linarith
 import Mathlib.Tactic.Ring
 import Mathlib.Tactic.FieldSimp
@@ -1716,5 +1717,265 @@ theorem scalar_dense_mixed_witness :
   · simp [scaleScalar, window, fit, applyOpt, applyVal, Val.isStr]
     norm_num
   · simp [scaleDense, denseRow, window, potDense, Val.numOrNil, applyOpt]
+
+
+/-! ## phase 4 -/
+
+/-! ### phase 4: exception values -/
+
+theorem shiftValueE_toOption (sh : Shift) (xs : List Rat) :
+    shiftValue sh xs = (match shiftValueE sh xs with | .ok s => some s | .error _ => none) := by
+  cases sh <;> simp [shiftValue, shiftValueE]
+  · cases minL xs <;> rfl
+  · cases mean xs <;> rfl
+  · cases median xs <;> rfl
+
+theorem scaleValueE_toOption (sd : List Rat → Rat) (sc : Scl) (xs : List Rat) (s : Rat) :
+    scaleValue sd sc xs s = (match scaleValueE sd sc xs s with | .ok f => some f | .error _ => none) := by
+  cases sc <;> simp [scaleValue, scaleNumDen, scaleValueE]
+  · cases maxL xs <;> cases minL xs <;> rfl
+  · split <;> rfl
+  · cases iqr xs <;> rfl
+  · cases maxL (xs.map (fun v => absR (v + s))) <;> rfl
+
+/-- `fit` (parameters or `None`) is `fitE` with the exception forgotten -/
+theorem fit_eq_fitE' (sd : List Rat → Rat) (cfg : Cfg) (w : List Val) :
+    fit sd cfg w = (match fitE sd cfg w with | .ok p => some p | .error _ => none) := by
+  unfold fit fitE
+  split
+  · cases cfg.shift <;> cases cfg.scale <;> simp <;> split <;> rfl
+  · rw [shiftValueE_toOption]
+    cases hs : shiftValueE cfg.shift (nums w) with
+    | error e => rfl
+    | ok s =>
+      simp only []
+      rw [scaleValueE_toOption]
+      cases scaleValueE sd cfg.scale (nums w) s <;> rfl
+
+theorem median_nil : median [] = none := by simp [median, isort]
+
+theorem shiftValueE_nil (sh : Shift) :
+    shiftValueE sh [] = (match sh with
+      | .num a => .ok a | .min => .error .valueError | _ => .error .statisticsError) := by
+  cases sh <;> simp [shiftValueE, minL, mean, median_nil]
+
+theorem shiftValueE_cons (sh : Shift) (x : Rat) (t : List Rat) : ∃ s, shiftValueE sh (x :: t) = .ok s := by
+  cases sh with
+  | num a => exact ⟨a, rfl⟩
+  | min => exact ⟨_, rfl⟩
+  | mean => exact ⟨_, rfl⟩
+  | median =>
+    obtain ⟨m, hm⟩ := median_isSome (xs := x :: t) (by simp)
+    exact ⟨-m, by simp [shiftValueE, hm]⟩
+
+theorem scaleValueE_nil (sd : List Rat → Rat) (sc : Scl) (s : Rat) :
+    scaleValueE sd sc [] s = (match sc with
+      | .num b => .ok (guardDiv (b, 1)) | .minmax => .error .valueError | .std => .error .statisticsError
+      | .iqr => .ok (guardDiv (1, 0)) | .maxabs => .error .valueError) := by
+  cases sc <;> simp [scaleValueE, minL, maxL, iqr]
+
+theorem scaleValueE_cons (sd : List Rat → Rat) (sc : Scl) (x : Rat) (t : List Rat) (s : Rat) :
+    (sc = .std ∧ t = [] ∧ scaleValueE sd sc (x :: t) s = .error .statisticsError) ∨
+    (¬ (sc = .std ∧ t = []) ∧ ∃ f, scaleValueE sd sc (x :: t) s = .ok f) := by
+  cases sc with
+  | num b => exact Or.inr ⟨by simp, _, rfl⟩
+  | minmax => exact Or.inr ⟨by simp, _, rfl⟩
+  | std =>
+    cases t with
+    | nil => exact Or.inl ⟨rfl, rfl, by simp [scaleValueE]⟩
+    | cons y t' => exact Or.inr ⟨by simp, guardDiv (1, sd (x :: y :: t')), by simp [scaleValueE]⟩
+  | iqr =>
+    obtain ⟨d, hd⟩ := iqr_isSome (x :: t)
+    exact Or.inr ⟨by simp, guardDiv (1, d), by simp [scaleValueE, hd]⟩
+  | maxabs => exact Or.inr ⟨by simp, by simp [scaleValueE, maxL]⟩
+
+/-- the only exception class the handler does not catch never arises -/
+theorem fitE_no_indexError' (sd : List Rat → Rat) (cfg : Cfg) (w : List Val) : fitE sd cfg w ≠ .error .indexError := by
+  unfold fitE
+  split
+  · cases cfg.shift <;> cases cfg.scale <;> simp <;> split <;> simp
+  · cases hn : nums w with
+    | nil =>
+      rw [shiftValueE_nil]
+      cases cfg.shift <;> simp
+      rw [scaleValueE_nil]
+      cases cfg.scale <;> simp
+    | cons x t =>
+      obtain ⟨s, hs⟩ := shiftValueE_cons cfg.shift x t
+      rw [hs]
+      rcases scaleValueE_cons sd cfg.scale x t s with ⟨_, _, h⟩ | ⟨_, f, h⟩ <;> simp [h]
+
+theorem fitE_typeError' (sd : List Rat → Rat) (cfg : Cfg) (w : List Val) :
+    fitE sd cfg w = .error .typeError ↔
+      w.any Val.isStr = true ∧
+        ¬ ∃ a, cfg.shift = .num a ∧ ((∃ b, cfg.scale = .num b) ∨ (cfg.scale = .iqr ∧ presentCount w ≤ 1)) := by
+  unfold fitE
+  by_cases hstr : w.any Val.isStr = true
+  · simp only [hstr, if_true, true_and]
+    cases cfg.shift <;> cases cfg.scale <;> simp <;> try (split <;> simp_all)
+  · simp only [hstr, if_false, false_and, iff_false]
+    cases hn : nums w with
+    | nil =>
+      rw [shiftValueE_nil]
+      cases cfg.shift <;> simp
+      rw [scaleValueE_nil]
+      cases cfg.scale <;> simp
+    | cons x t =>
+      obtain ⟨s, hs⟩ := shiftValueE_cons cfg.shift x t
+      rw [hs]
+      rcases scaleValueE_cons sd cfg.scale x t s with ⟨_, _, h⟩ | ⟨_, f, h⟩ <;> simp [h]
+
+theorem fitE_valueError' (sd : List Rat → Rat) (cfg : Cfg) (w : List Val) :
+    fitE sd cfg w = .error .valueError ↔
+      w.any Val.isStr = false ∧ nums w = [] ∧
+        (cfg.shift = .min ∨ ((∃ a, cfg.shift = .num a) ∧ (cfg.scale = .minmax ∨ cfg.scale = .maxabs))) := by
+  unfold fitE
+  by_cases hstr : w.any Val.isStr = true
+  · simp only [hstr, if_true]
+    cases cfg.shift <;> cases cfg.scale <;> simp
+    split <;> simp
+  · have hstr' : w.any Val.isStr = false := by simpa using hstr
+    simp only [hstr, if_false, hstr', true_and]
+    cases hn : nums w with
+    | nil =>
+      rw [shiftValueE_nil]
+      cases cfg.shift <;> simp
+      rw [scaleValueE_nil]
+      cases cfg.scale <;> simp
+    | cons x t =>
+      obtain ⟨s, hs⟩ := shiftValueE_cons cfg.shift x t
+      rw [hs]
+      rcases scaleValueE_cons sd cfg.scale x t s with ⟨_, _, h⟩ | ⟨_, f, h⟩ <;> simp [h]
+
+theorem fitE_statisticsError' (sd : List Rat → Rat) (cfg : Cfg) (w : List Val) :
+    fitE sd cfg w = .error .statisticsError ↔
+      w.any Val.isStr = false ∧
+        ((nums w = [] ∧ (cfg.shift = .mean ∨ cfg.shift = .median)) ∨
+         (((∃ a, cfg.shift = .num a) ∨ nums w ≠ []) ∧ cfg.scale = .std ∧ (nums w).length < 2)) := by
+  unfold fitE
+  by_cases hstr : w.any Val.isStr = true
+  · simp only [hstr, if_true]
+    cases cfg.shift <;> cases cfg.scale <;> simp
+    split <;> simp
+  · have hstr' : w.any Val.isStr = false := by simpa using hstr
+    simp only [hstr, if_false, hstr', true_and]
+    cases hn : nums w with
+    | nil =>
+      rw [shiftValueE_nil]
+      cases cfg.shift <;> simp
+      all_goals (rw [scaleValueE_nil]; cases cfg.scale <;> simp)
+    | cons x t =>
+      obtain ⟨s, hs⟩ := shiftValueE_cons cfg.shift x t
+      rw [hs]
+      rcases scaleValueE_cons sd cfg.scale x t s with ⟨h1, h2, h⟩ | ⟨hne, f, h⟩
+      · simp only [h]
+        simp [h1, h2]
+      · simp only [h]
+        constructor
+        · intro h'
+          cases h'
+        · rintro (⟨h', _⟩ | ⟨_, hsc, hlen⟩)
+          · cases h'
+          · exfalso
+            apply hne
+            refine ⟨hsc, ?_⟩
+            cases t with
+            | nil => rfl
+            | cons y t' => exact absurd hlen (by simp)
+
+/-- with the source's handler tuple `_get_shift_and_scale` never lets an exception out, and returns `fit` -/
+theorem getShiftAndScale_eq' (sd : List Rat → Rat) (cfg : Cfg) (w : List Val) :
+    getShiftAndScale scaleHandlers sd cfg w = .ok (fit sd cfg w) := by
+  unfold getShiftAndScale
+  rw [fit_eq_fitE']
+  have hno := fitE_no_indexError' sd cfg w
+  cases h : fitE sd cfg w with
+  | ok p => rfl
+  | error e =>
+    cases e with
+    | indexError => exact absurd h hno
+    | typeError => rfl
+    | valueError => rfl
+    | statisticsError => rfl
+
+/-! ### ragged dense rows -/
+
+theorem rect_length {first : List Val} {rest : List (List Val)} (h : Rect (first :: rest) = true) :
+    ∀ r ∈ first :: rest, r.length = first.length := by
+  intro r hr
+  rcases List.mem_cons.1 hr with rfl | hr
+  · rfl
+  · simp [Rect] at h
+    exact h r hr
+
+theorem mem_potKeys {first : List Val} {k : Nat} (h : k ∈ potKeys first) : k < first.length := by
+  simp [potKeys] at h
+  exact h.1
+
+theorem mem_window {α} (u : Option Nat) (rows : List α) (r : α) (h : r ∈ window u rows) : r ∈ rows := by
+  cases u with
+  | none => exact h
+  | some n => exact List.mem_of_mem_take h
+
+/-- on rectangular data (every context as long as the first) no `IndexError` arises and the filter is `scaleDenseFull` -/
+theorem scaleDenseE_rect' (sd : List Rat → Rat) (cfg : Cfg) (rows : List (List Val)) (h : Rect rows = true) :
+    scaleDenseE sd cfg rows = .ok (scaleDenseFull sd cfg rows) := by
+  cases rows with
+  | nil => simp [scaleDenseE, scaleDenseFull, denseZeroWindow, scaleDense]
+  | cons first rest =>
+    have hl := rect_length h
+    have h1 : (window cfg.usingN (first :: rest)).any (fun r => (potKeys first).any (fun k => decide (r.length ≤ k))) = false := by
+      rw [List.any_eq_false]
+      intro r hr
+      have := hl r (mem_window _ _ _ hr)
+      simp only [List.any_eq_true, not_exists, not_and, decide_eq_true_eq]
+      intro k hk
+      have := mem_potKeys hk
+      omega
+    have h2 : ∀ (p : Nat → Bool), (first :: rest).any (fun r => ((potKeys first).filter p).any (fun k => decide (r.length ≤ k))) = false := by
+      intro p
+      rw [List.any_eq_false]
+      intro r hr
+      have := hl r hr
+      simp only [List.any_eq_true, not_exists, not_and, decide_eq_true_eq]
+      intro k hk
+      have := mem_potKeys (List.mem_filter.1 hk).1
+      omega
+    simp only [scaleDenseE, h1, h2]
+    simp
+
+
+/-! ### option tables and the translator tie (`Generated/C11Options.lean` is rewritten from the source on every run) -/
+
+theorem shiftOfName_none_iff' (s : String) : shiftOfName s = none ↔ s ∉ shiftNames := by
+  unfold shiftOfName shiftNames
+  split_ifs <;> simp_all
+
+theorem sclOfName_none_iff' (s : String) : sclOfName s = none ↔ s ∉ scaleNames := by
+  unfold sclOfName scaleNames
+  split_ifs <;> simp_all
+
+theorem statOfName_none_iff' (s : String) : statOfName s = none ↔ s ∉ statNames := by
+  unfold statOfName statNames
+  split_ifs <;> simp_all
+
+theorem guardDiv_threshold' (nd : Rat × Rat) : guardDiv nd = if nd.2 < guardThreshold then nd.1 else nd.1 / nd.2 := rfl
+
+theorem options_match_source' :
+    Coba.Generated.C11.shiftAccepted = shiftNames ∧ Coba.Generated.C11.scaleAccepted = scaleNames ∧
+    Coba.Generated.C11.statAccepted = statNames ∧ Coba.Generated.C11.shiftDispatch = shiftTable ∧
+    Coba.Generated.C11.scaleDispatch = sclTable ∧ Coba.Generated.C11.statDispatch = statTable ∧
+    Coba.Generated.C11.guard = guardThreshold ∧ Coba.Generated.C11.handlers = scaleHandlers := by
+  refine ⟨by decide, by decide, by decide, by decide, by decide, by decide, by decide +kernel, by decide⟩
+
+/-- a `Scale` configuration as a tuple with decidable equality -/
+def ScaleCfg.tuple (k : ScaleCfg) : Shift × Scl × Option Nat × String := (k.cfg.shift, k.cfg.scale, k.cfg.usingN, k.target)
+
+theorem defaults_match_source' :
+    Coba.Generated.C11.ctorScale.tuple = (scaleCtorCfg ⟨none, none, none, none⟩).tuple ∧
+    Coba.Generated.C11.envScale.map ScaleCfg.tuple = (envScaleFilters ⟨none, none, none, none⟩).map ScaleCfg.tuple ∧
+    [Coba.Generated.C11.ctorImpute] = envImputeFilters ⟨none, none, none⟩ ∧
+    Coba.Generated.C11.envImpute = envImputeFilters ⟨none, none, none⟩ := by
+  refine ⟨by decide +kernel, by decide +kernel, by decide, by decide⟩
 
 end Coba.C11
